@@ -464,18 +464,34 @@ func builtinModels() map[string]modelFn {
 	newTimer := func(e *Engine, st *State, c *callCtx, withChan bool) Value {
 		tt := e.prog.ImportedPackage("time").Type("Timer").Type()
 		id := e.allocType(st, tt)
-		if withChan {
-			ch := e.newObj(st, &Object{kind: ObjChan, bufcap: 1})
-			e.store(st, PtrVal{obj: id}, ChanVal{obj: ch})
-		}
+		ch := e.newObj(st, &Object{kind: ObjChan, bufcap: 1, isTimer: true, timerActive: true})
+		e.store(st, PtrVal{obj: id}, ChanVal{obj: ch})
 		return PtrVal{obj: id}
+	}
+	timerChan := func(e *Engine, st *State, c *callCtx) *Object {
+		p := c.args[0].(PtrVal)
+		ch, ok := e.obj(st, p.obj).slots[p.off].(ChanVal)
+		if !ok || ch.obj == 0 {
+			e.unsupported(st, "timer without channel")
+		}
+		return e.wobj(st, ch.obj)
 	}
 	m["time.AfterFunc"] = func(e *Engine, st *State, c *callCtx) { e.finish(st, c, newTimer(e, st, c, false)) }
 	m["time.NewTimer"] = func(e *Engine, st *State, c *callCtx) { e.finish(st, c, newTimer(e, st, c, true)) }
-	m["(*time.Timer).Stop"] = func(e *Engine, st *State, c *callCtx) { e.finish(st, c, e.ctx.True) }
-	m["(*time.Timer).Reset"] = func(e *Engine, st *State, c *callCtx) { e.finish(st, c, e.ctx.True) }
+	m["(*time.Timer).Stop"] = func(e *Engine, st *State, c *callCtx) {
+		o := timerChan(e, st, c)
+		was := o.timerActive
+		o.timerActive = false
+		e.finish(st, c, e.ctx.Bool(was))
+	}
+	m["(*time.Timer).Reset"] = func(e *Engine, st *State, c *callCtx) {
+		o := timerChan(e, st, c)
+		was := o.timerActive
+		o.timerActive = true
+		e.finish(st, c, e.ctx.Bool(was))
+	}
 	m["time.After"] = func(e *Engine, st *State, c *callCtx) {
-		ch := e.newObj(st, &Object{kind: ObjChan, bufcap: 1})
+		ch := e.newObj(st, &Object{kind: ObjChan, bufcap: 1, isTimer: true, timerActive: true})
 		e.finish(st, c, ChanVal{obj: ch})
 	}
 	// time.Parse*: opaque, succeeds or fails nondeterministically (formatting/parsing of dates is
